@@ -114,20 +114,23 @@ func scenC10(r *Run) {
 		var k string
 		switch {
 		case mode == "loss" && i == 0:
-			k = r.PlanOf("close", "reset", "close", "reset", "dialfail", "none", "abort", "cancel")
+			k = r.PlanOf("close", "reset", "close", "reset", "dialfail", "none", "abort", "cancel", "writeerr")
 		case mode == "loss":
 			k = r.PlanOf("none", "abort", "cancel", "close", "reset")
 		case i == 0:
-			k = r.PlanOf("silence", "slow", "silence", "slow", "drop", "lossy", "accepterr")
+			k = r.PlanOf("silence", "slow", "silence", "slow", "drop", "lossy", "accepterr", "writeerr")
 		default:
 			k = r.PlanOf("none", "abort", "cancel", "abort", "cancel", "slow", "silence")
 		}
 		if k == "none" {
 			continue
 		}
+		if k == "writeerr" && kind == "udp" {
+			k = "close"
+		}
 		if !fx.HasConns() {
 			switch k {
-			case "close", "reset":
+			case "close", "reset", "writeerr":
 				k = "abort"
 			case "silence", "drop", "lossy":
 				if kind != "udp" {
@@ -138,7 +141,7 @@ func scenC10(r *Run) {
 			k = "silence"
 		}
 		switch k {
-		case "close", "reset", "silence":
+		case "close", "reset", "silence", "writeerr":
 			if kind == "udp" {
 				dir := r.PlanOf("c2s", "s2c")
 				from := r.Plan(4)
@@ -147,6 +150,12 @@ func scenC10(r *Run) {
 				continue
 			}
 			dir := r.PlanOf("c2s", "s2c")
+			if k == "writeerr" && mode == "loss" {
+				// a failing write on the server's side is the server's business (under fasthttp third-party code
+				// that may keep the connection open, which then is a silent peer): where calls must end without
+				// a timer, only the client's own writes fail
+				dir = "c2s"
+			}
 			off := offsets[r.Plan(len(offsets))]
 			conn := r.Plan(2)
 			net.AddFault(conn, dir, off, k)
